@@ -171,6 +171,11 @@ func moves() []move {
 			})
 		}},
 		{"respq-replayed", "s2c", 1, func(e *env, v int, p []byte) []byte { return e.prev[1] }},
+		// one bit of pq flipped: the result may be prime (rejected), above 2^63 (rejected) or another
+		// composite (factored; the in-tree server does not look at it: no claim)
+		{"respq-pq-bitflip", "s2c", 1, func(e *env, v int, p []byte) []byte {
+			return reResPQ(p, func(m *mt.ResPQ) { m.Pq = append([]byte(nil), m.Pq...); flip(m.Pq, v) })
+		}},
 		// pq without a non-trivial factorisation: 0, 1, small primes, a 63-bit prime (the factor search must
 		// fail cleanly: no division by zero, no endless loop)
 		{"respq-pq-unfactorable", "s2c", 1, func(e *env, v int, p []byte) []byte {
@@ -263,8 +268,10 @@ func moves() []move {
 		{"gen-replayed", "s2c", 3, func(e *env, v int, p []byte) []byte { return e.prev[3] }},
 		// ---- raw corruption of any byte of any server message (may break the TL framing) ----
 		{"raw-bitflip-msg1", "s2c", 1, func(e *env, v int, p []byte) []byte {
-			// any bit of the ResPQ body except the pq string (bytes 36..47 of the body): a random pq may be
-			// prime, and DecomposePQ does not terminate on primes (outside this property, see C13)
+			// any bit of the ResPQ body except the pq string (bytes 36..47 of the body): the in-tree server
+			// ignores p, q and pq of the request, so an altered composite pq is accepted end to end and the
+			// property makes no claim about it; flips inside pq have their own move (respq-pq-bitflip) whose
+			// oracle is "fails cleanly or completes", never panic / hang
 			q := append([]byte(nil), p...)
 			body := q[20:]
 			n := len(body) - 12
@@ -575,6 +582,8 @@ func main() {
 			c.Violate("client-panic-"+name, fmt.Sprintf("move %s (variant %d): ClientExchange.Run panicked", name, rc.Variant), sh, ix, rc)
 		case mv == nil && s.err != nil:
 			c.Violate("baseline-failed", fmt.Sprintf("honest exchange through the relaying proxy failed: %v", s.err), sh, ix, rc)
+		case mv != nil && s.err == nil && mv.Name == "respq-pq-bitflip":
+			c.Count("no-claim:altered-composite-pq-accepted")
 		case mv != nil && s.err == nil:
 			c.Violate("accepted-"+name, fmt.Sprintf("adversary move %s (variant %d, seed %d): the client completed the exchange (key id %x)", name, rc.Variant, rc.Seed, s.res.AuthKey.ID), sh, ix, rc)
 		}
@@ -623,6 +632,6 @@ func main() {
 			}
 		}
 	}
-	c.Obs.Rule = "one adversary move per exchange, every move of the library once per repetition (1 in quick, 12 in thorough) with a random bit position / the enumerated substituted values (all in thorough, three per run in quick): ResPQ {nonce, server_nonce, fingerprint flips; own RSA key; no fingerprints; pq > 2^63; pq in {0,1,2,3,1000003, largest prime < 2^63}; replay}, Server_DH_Params {nonce flips; ciphertext flip / truncation / zeros; answer from a peer without new_nonce; replay; fail message; inner nonce flips; prime substituted by composite, non-safe prime, 2047/2049-bit, small, 0, 2^2047; prime bit flip; generator 0,1,8,9,-1 or failing the residue rule; g_a in {0,1,p-1,p,2,2^1984-5,2^1984,p-2^1984,p-2^1984+3,p+12345}}, dh_gen {nonce flips, hash flip / random, retry, fail, replay}, raw bit flips in each server message, bit flips in the encrypted parts of the client's messages; plus two honest baselines; non-trivial = distinct (move, variant, seed)"
+	c.Obs.Rule = "one adversary move per exchange, every move of the library once per repetition (1 in quick, 12 in thorough) with a random bit position / the enumerated substituted values (all in thorough, three per run in quick): ResPQ {nonce, server_nonce, fingerprint flips; own RSA key; no fingerprints; pq > 2^63; pq in {0,1,2,3,1000003, largest prime < 2^63}; one pq bit flipped (must not panic or hang); replay}, Server_DH_Params {nonce flips; ciphertext flip / truncation / zeros; answer from a peer without new_nonce; replay; fail message; inner nonce flips; prime substituted by composite, non-safe prime, 2047/2049-bit, small, 0, 2^2047; prime bit flip; generator 0,1,8,9,-1 or failing the residue rule; g_a in {0,1,p-1,p,2,2^1984-5,2^1984,p-2^1984,p-2^1984+3,p+12345}}, dh_gen {nonce flips, hash flip / random, retry, fail, replay}, raw bit flips in each server message, bit flips in the encrypted parts of the client's messages; plus two honest baselines; non-trivial = distinct (move, variant, seed)"
 	c.Finish()
 }
